@@ -54,6 +54,19 @@ CLAIMED["C06"] = dict(
     technique="symbolic execution of the real numpy code on z3 terms; identities decided by polynomial canonical form (reciprocal / square-root rewrite rules from the path condition) and by z3 (NRA, EUF) otherwise",
     ref="4/C06")
 
+CLAIMED["C02"] = dict(
+    text="Bounded symbolic model checking of save-then-reload through the real API for XYZ (incl. user-defined atom columns), PDB, MOL2, SDF, POSCAR, Cube and FCIDUMP: every real attribute the format stores is a symbolic term that travels through the written text as a placeholder token of the exact printed width (one field per record may fill its column); z3 proves the reloaded attributes equal to the dumped ones (POSCAR up to the documented grouping by element), discrete data compared exactly; sizes cross the field-width boundaries (100/999/1000/12000 atoms) with symbolic probe atoms.",
+    note="Wavefunction formats (FCHK, Molden, Molekel, WFN, WFX) and QCSchema are exercised by the C01 harnesses / not yet by this check; values overflowing their column and digit-level rounding outside; one recorded finding (PDB default atom names overflow).",
+    ref="4/C02")
+CLAIMED["C15"] = dict(
+    text="Same symbolic objects and formats as C02 taken through three dump/load generations with the real API: z3 proves the generation-3 object equal to the generation-2 object attribute by attribute (dtype, None-ness, dictionary keys, values as terms) and the generation-3 text identical to the generation-2 text token for token.",
+    note="Digit-level drift of float formatting is abstracted (numbers are exact terms); wavefunction formats and QCSchema not yet covered by this check.",
+    ref="4/C15")
+CLAIMED["C09"] = dict(
+    text="Deep snapshots (array contents as z3 terms, dictionary structure, identities of members) of the object passed to dump_one (7 formats, C02 menus) and write_input (2 programs) are proved equal before and after the call for all symbolic values; dump_one returns the very object.",
+    note="allow_changes conversions of wavefunction objects are covered by C14 (equivalence of the converted object) and the C01 harnesses; QCSchema provenance not yet covered here.",
+    ref="4/C09")
+
 NOT_YET = "check not built yet in this round (planned, see DESIGN.md section 4)"
 NA = {}
 
